@@ -122,10 +122,11 @@ StartRecv(s, style, cap) ==
            take == style # "wait" /\ q # <<>>
            o == [style |-> style, cap |-> cap, imm |-> (q # <<>>),
                  tk |-> IF take THEN [id |-> Head(q), size |-> dg[Head(q)].size, from |-> dg[Head(q)].from] ELSE None] IN
-       \* (style "sync" = a non-blocking read: it supersedes nothing and its result is reported at once)
-       /\ us' = [us EXCEPT ![s].op = IF style = "sync" THEN @ ELSE o,
-                           ![s].aborting = IF style = "sync" THEN Append(@, o)
-                                           ELSE IF us[s].op # None THEN Append(@, us[s].op) ELSE @,
+       \* (style "sync" = a non-blocking read: like the asynchronous calls it first aborts an outstanding receive; its own
+       \* result is reported at once, it never stays outstanding)
+       /\ us' = [us EXCEPT ![s].op = IF style = "sync" THEN None ELSE o,
+                           ![s].aborting = (IF us[s].op # None THEN Append(@, us[s].op) ELSE @)
+                                           \o (IF style = "sync" THEN <<o>> ELSE <<>>),
                            ![s].rcvq = IF take THEN Tail(@) ELSE @,
                            ![s].acct = IF take THEN @ - dg[Head(q)].size ELSE @]
        /\ dg' = IF take THEN [i \in DOMAIN dg \ {Head(q)} |-> dg[i]] ELSE dg
